@@ -13,7 +13,10 @@
 (* Lines:                                                                  *)
 (*  {"e":"reset","maxCount":..,"limit":..,"cap":..,"maxDumps":..,          *)
 (*   "files":[{"id","size","lw","cur"}..],"ev":n,"dumps":[id..]}           *)
-(*      the directories found by the first run of this history             *)
+(*      the directories found by the first run of this history, listed     *)
+(*      BEFORE any logger object exists; "ev" counts ALL entries of the    *)
+(*      event directory, whatever their names (event files, leftover temp  *)
+(*      files, anything else): that is what "holds more files" means       *)
 (*  {"e":"write","n":bytes,"ok":0|1,"files":[{"id","size","cur"}..]}       *)
 (*      one log write; ok=0: the logger REFUSED it (returned an error).    *)
 (*      A refused write is accepted like any other: the bounds are what is *)
@@ -31,12 +34,18 @@
 (*      than the current file before it.                                   *)
 (*  {"e":"fault","kind":"pin"|"unpin"}   the environment makes the rename  *)
 (*      of the current log file fail from now on / no longer               *)
-(*  {"e":"ev","kind":"push"|"tick"|"stop"|"remove","ev":n}   event dir;    *)
+(*  {"e":"ev","kind":"start"|"push"|"tick"|"tickfail"|"stop"|"stopfail"|    *)
+(*   "remove","ev":n}   event dir (n = all entries); "start": the logger   *)
+(*      task was started; "tickfail"/"stopfail": the flush ran while       *)
+(*      writes to files fail (disk full);                                  *)
 (*      "stop": event_logger::stop() handled and the task ended (its last  *)
 (*      flush included): the cap and no-growth-at-cap are evaluated on     *)
 (*      this step like on every other step of the logger                   *)
 (*  {"e":"dump","dumps":[id..]}                              write_all     *)
-(*  {"e":"restart"}                                                        *)
+(*  {"e":"restart","files":[..]}  the process was restarted and the logger  *)
+(*      object created again (RollingLogger::create_new): files = what is  *)
+(*      there AFTER that.  A restart is an operation like any other: the   *)
+(*      count bounds hold after it and after every later operation.        *)
 (* File ids are assigned by the check in order of creation (log files are  *)
 (* identified by the token of the write that created them, dumps and event *)
 (* files by name), so id order = age order.                                *)
@@ -54,7 +63,7 @@ NoConf == [maxCount |-> 0, limit |-> 0, cap |-> 0, maxDumps |-> 0]
 
 TInit == /\ l = 1 /\ conf = NoConf /\ files = <<>>
          /\ arch = <<>> /\ cur = -1 /\ lw = 0 /\ rolled = FALSE /\ logLegal = TRUE /\ debt = 0 /\ rollFails = FALSE
-         /\ evFiles = 0 /\ evQueue = 0 /\ evRun = TRUE /\ evLegal = TRUE
+         /\ evFiles = 0 /\ evTmp = 0 /\ evQueue = 0 /\ evRun = TRUE /\ evLegal = TRUE
          /\ dumps = <<>> /\ nextId = 0 /\ dLegal = TRUE /\ dWritten = FALSE
 
 IsCur(f) == f.cur = 1
@@ -82,7 +91,7 @@ Reset ==
   /\ Project(files')
   /\ rolled' = FALSE /\ debt' = 0 /\ rollFails' = FALSE
   /\ logLegal' = (Len(ArchOf(files')) + 1 <= Rec[l].maxCount)
-  /\ evFiles' = Rec[l].ev /\ evQueue' = 0 /\ evRun' = TRUE /\ evLegal' = (Rec[l].ev <= Rec[l].cap)
+  /\ evFiles' = Rec[l].ev /\ evTmp' = 0 /\ evQueue' = 0 /\ evRun' = TRUE /\ evLegal' = (Rec[l].ev <= Rec[l].cap)
   /\ dumps' = Rec[l].dumps /\ nextId' = 0 /\ dLegal' = (Len(Rec[l].dumps) <= Rec[l].maxDumps) /\ dWritten' = FALSE
   /\ l' = l + 1
 
@@ -105,7 +114,7 @@ Killed ==
   /\ Project(files')
   /\ rolled' = FALSE /\ debt' = debt + 1
   /\ evRun' = TRUE
-  /\ UNCHANGED <<conf, logLegal, rollFails, evFiles, evQueue, evLegal, dumpVars>>
+  /\ UNCHANGED <<conf, logLegal, rollFails, evFiles, evTmp, evQueue, evLegal, dumpVars>>
   /\ l' = l + 1
 
 \* the environment switches the rename fault on / off: no file changes
@@ -118,8 +127,10 @@ Fault ==
 Ev ==
   /\ l <= Len(Rec) /\ Rec[l].e = "ev"
   /\ evFiles' = Rec[l].ev
-  /\ evRun' = IF Rec[l].kind = "stop" THEN FALSE ELSE evRun
-  /\ UNCHANGED <<conf, files, logVars, evQueue, evLegal, dumpVars>>
+  /\ evRun' = CASE Rec[l].kind \in {"stop", "stopfail"} -> FALSE
+                [] Rec[l].kind = "start" -> TRUE
+                [] OTHER -> evRun
+  /\ UNCHANGED <<conf, files, logVars, evTmp, evQueue, evLegal, dumpVars>>
   /\ l' = l + 1
 
 Dump ==
@@ -128,10 +139,13 @@ Dump ==
   /\ UNCHANGED <<conf, files, logVars, evVars, nextId, dLegal>>
   /\ l' = l + 1
 
+\* the logger object is created again over what the earlier runs left; whatever that does to the directory is
+\* observed here (no write: a file whose size changed has "last write" 0)
 TRestart ==
   /\ l <= Len(Rec) /\ Rec[l].e = "restart"
-  /\ evRun' = TRUE
-  /\ UNCHANGED <<logVars, evFiles, evQueue, evLegal, dumpVars, conf, files>>
+  /\ files' = Carry(Rec[l].files, 0)
+  /\ Project(files')
+  /\ UNCHANGED <<conf, rolled, logLegal, debt, rollFails, evVars, dumpVars>>
   /\ l' = l + 1
 
 TNext == Reset \/ Write \/ Killed \/ Fault \/ Ev \/ Dump \/ TRestart
@@ -147,8 +161,8 @@ T_LogCountAfterRoll == rolled => P_LogCount(arch, cur, conf.maxCount)
 T_LogSize == \A k \in DOMAIN files : P_LogSize(files[k].size, files[k].lw, conf.limit)
 T_EvCount == evLegal => P_EvCount(evFiles, conf.cap)
 T_DumpCount == (dLegal \/ dWritten) => P_DumpCount(dumps, conf.maxDumps)
-\* steps of the event logger itself -- pushes, periodic flushes AND the stop with its last flush; not the reader's
-\* removals -- never add a file at or above the cap
+\* steps of the event logger itself -- its start, pushes, periodic flushes (failing or not) AND the stop with its last
+\* flush; not the reader's removals -- never add an entry at or above the cap.  evFiles here = all entries observed.
 T_EvDropAtCap == [][(l <= Len(Rec) /\ Rec[l].e = "ev" /\ Rec[l].kind # "remove")
                       => P_EvNoGrowthAtCap(evFiles, evFiles', conf.cap)]_tvars
 T_DumpOldestFirst == [][(l <= Len(Rec) /\ Rec[l].e = "dump") => P_RemovedAreOldest(dumps, dumps')]_tvars
